@@ -157,7 +157,7 @@ where
                     span,
                     format!(
                         "unknown query definition arguments {}",
-                        args.keys().map(|x| format!("`{x}`")).join(", ")
+                        args.keys().sorted().map(|x| format!("`{x}`")).join(", ")
                     ),
                 ));
             }
